@@ -38,7 +38,26 @@ type mnode struct {
 	depth    int
 }
 
+type sharedAttrsT struct {
+	attrs slog.Attrs
+	kvs   []srcKV
+}
+
+// sharedAttrs returns one of two Attrs values that live for the whole case and are given to several loggers.
+func (e *c10env) sharedAttrs(r *gen.R) *sharedAttrsT {
+	if len(e.shared) == 0 {
+		for i := 0; i < 2; i++ {
+			k1, k2 := fmt.Sprintf("s%da", i), fmt.Sprintf("s%db", i)
+			sh := &sharedAttrsT{attrs: slog.NewAttrs(k1, "shared#"+k1, k2, "shared#"+k2)}
+			sh.kvs = []srcKV{{key: k1, src: "shared#" + k1}, {key: k2, src: "shared#" + k2}}
+			e.shared = append(e.shared, sh)
+		}
+	}
+	return e.shared[r.Intn(len(e.shared))]
+}
+
 type c10env struct {
+	shared []*sharedAttrsT
 	log   *mon.Log
 	pool  []io.Writer
 	fds   *fdCapture
@@ -283,6 +302,26 @@ func (e *c10env) ops() []c10op {
 			}
 			n := e.withChild(t, ent)
 			n.attrs = append(n.attrs, as...)
+			return n, ent, false
+		}},
+		{"SetAttrs1(shared Attrs value)", func(e *c10env, t *mnode) (*mnode, *slog.Entry, bool) {
+			// one Attrs value (built by NewAttrs: spare capacity) handed to several loggers: each must keep its own copy
+			sh := e.sharedAttrs(r)
+			ent := t.e.SetAttrs1(sh.attrs)
+			t.attrs = append(t.attrs, sh.kvs...)
+			return nil, ent, true
+		}},
+		{"WithAttrs1(shared Attrs value)", func(e *c10env, t *mnode) (*mnode, *slog.Entry, bool) {
+			sh := e.sharedAttrs(r)
+			var ent *slog.Entry
+			if r.Bool() {
+				ent = t.e.WithAttrs1(sh.attrs)
+			} else {
+				ent = t.e.New(fmt.Sprintf("sh%d", e.seq), slog.WithAttrs1(sh.attrs))
+				e.seq++
+			}
+			n := e.withChild(t, ent)
+			n.attrs = append(n.attrs, sh.kvs...)
 			return n, ent, false
 		}},
 		{"WithContextKeys", func(e *c10env, t *mnode) (*mnode, *slog.Entry, bool) {
